@@ -151,8 +151,14 @@ def tls_conn(draw, combos=None, max_records=12, max_len=2000, delivery=None, ep=
 
 def single_tls_scenario(**kw):
     # capture times: mostly epoch values; sometimes relative times starting at exactly 0, or a file order that is not time order
-    return st.builds(lambda c, ts, tm: dict({"conns": [c], "tseed": ts}, **({"times": tm} if tm else {})), tls_conn(**kw), st.integers(0, 1000),
-                     st.sampled_from([None] * 6 + ["zero", "disorder"]))
+    # key log: mostly the connection's lines as they are; sometimes shuffled among lines of other connections (a log shared by many
+    # connections does not keep a connection's lines together)
+    def mk(c, ts, tm, kl):
+        sc = dict({"conns": [c], "tseed": ts}, **({"times": tm} if tm else {}))
+        if kl:
+            sc["keys"] = {"file": True, "shuffle": True, "unrelated": kl, "seed": ts}
+        return sc
+    return st.builds(mk, tls_conn(**kw), st.integers(0, 1000), st.sampled_from([None] * 6 + ["zero", "disorder"]), st.sampled_from([0, 0, 0, 3, 9]))
 
 
 # ------------------------------------------------------------------ QUIC
